@@ -822,3 +822,23 @@ def copy_source_untouched(ck, rels, rule='ALIAS-source'):
                     key='{}|{}|{}|{}'.format(rule, rel, qual, srcname))
     ck.extra['copy_sites'] = n
     return n
+
+
+# ----------------------------------------------------------------------------------------------------------------------
+def no_identity_on_values(ck, rels, rule='IS-literal'):
+    """`is` / `is not` compares object identity: against a number, string or tuple it depends on interning, not on the value."""
+    n = 0
+    for rel in rels:
+        module = ck.index.mod(rel)
+        for node in ast.walk(module.tree):
+            if isinstance(node, ast.Compare):
+                left = node.left
+                for op, right in zip(node.ops, node.comparators):
+                    if isinstance(op, (ast.Is, ast.IsNot)):
+                        for side in (left, right):
+                            if (isinstance(side, ast.Constant) and side.value not in (None, True, False, Ellipsis)) or isinstance(side, (ast.Tuple, ast.List, ast.Dict, ast.Set, ast.JoinedStr)):
+                                n += 1
+                                ck.ob(rule, module.loc(node), False, '`{}` tests identity against a value: the outcome depends on object interning, not on equality'.format(u(node)[:80]),
+                                      key='{}|{}|{}'.format(rule, rel, u(node)[:50]))
+                    left = right
+    ck.ob(rule, ','.join(rels)[:80], True, 'identity comparisons against values: {} found'.format(n), key=rule + '|ran|' + ','.join(rels)[:120])
